@@ -10,16 +10,16 @@ CHECKS = {
    text="Exhaustive bounded model checking: every position of F-REACH (BFS depth 3/2 quick, 4/3 thorough), all legal kings+1 positions, all en-passant constellations with one extra man, castling constellations with 1 (2) enemy men, promotion family (thorough: all kings+2 positions); in each the engine's move list with capture/en-passant/castling/promotion flags is compared as a multiset with the reference legal moves and the in-check verdict with the reference. Right level because the rule interactions named in the property need at most kings + 3-4 men, all of which are enumerated, not sampled.",
    design="5/C01"),
  "C02": dict(
-   technique="explicit-state exploration (position BFS + family enumeration, one make/take-back per transition) and exhaustive operation-sequence DFS (make / null move / take-back, nesting depth 4-5) against a reference stack",
-   text="Every transition of the position sweep and every nested make / null-move / take-back sequence up to the stated depth on one Game object: the result of make_move is compared field by field with the reference rules (en-passant target by the tolerant rule), every take-back with a full snapshot (placement, side, rights, ep, clocks, key, accumulators, bitboards, history length), and the three board views on all 64 squares after every operation; the null move is tried before and after the real moves of a node; one scripted reversible game of 300 (700) plies with every legal move made and taken back at every ply (clock and history length past 256); F-CORNER and F-ABSURD families.",
+   technique="explicit-state exploration (position BFS + family enumeration, one make/take-back per transition) and exhaustive operation-sequence DFS (make / null move / take-back, nesting depth 4-5, and single lines nested 560-20000 deep) against a reference stack",
+   text="Every transition of the position sweep and every nested make / null-move / take-back sequence up to the stated depth on one Game object: the result of make_move is compared field by field with the reference rules (en-passant target by the tolerant rule), every take-back with a full snapshot (placement, side, rights, ep, clocks, key, accumulators, bitboards, history length), and the three board views on all 64 squares after every operation; the null move is tried before and after the real moves of a node; one scripted reversible game of 300 (700) plies with every legal move made and taken back at every ply (clock and history length past 256); one line nested 2600 (20000) operations deep with null moves in between, checked after every operation and taken back level by level (E2-DEEP-NEST); a panic of the game object on an operation the script is entitled to is a violation; F-CORNER and F-ABSURD families.",
    design="5/C02"),
  "C03": dict(
    technique="exhaustive operation-sequence DFS + position BFS with key recomputation after every operation, a key->identity collision map over all states met, in both directions (one key per identity, one identity per key), and all 838^2 pairs of key components",
-   text="The carried key equals the from-scratch key after every make, null move and take-back of every explored sequence (null moves with an en-passant target included, vacuity-guarded); two identities under one key anywhere in the exploration is a violation; all 838 components recovered through the public API are pairwise distinct and non-zero (exhaustive). Null move before and after the real moves of every node (hidden state across take-backs), full operation trace as replay case.",
+   text="The carried key equals the from-scratch key after every make, null move and take-back of every explored sequence (null moves with an en-passant target included, vacuity-guarded); two identities under one key anywhere in the exploration is a violation; all 838 components recovered through the public API are pairwise distinct and non-zero (exhaustive). Null move before and after the real moves of every node (hidden state across take-backs), full operation trace as replay case; E2-DEEP-NEST: one line nested 2600 (20000) operations deep, key recomputed at every level down and up.",
    design="5/C03"),
  "C04": dict(
    technique="exhaustive enumeration of search sessions (complete 3-man endgame families, tactical roots x depth x hash size x prior searches x start generation) and of environment deviations (every clock-read index as expiry point) on the real search in a checked build; en-passant twin positions searched on one table",
-   text="Every search of every enumerated session runs in a build with overflow checks and debug assertions inside catch_unwind with a deterministic node budget: it must terminate, not panic and return a move that is legal by the reference rules. Sessions chain searches on one persistent state (non-initial states, generation counter wrap, hash sizes from the advertised minimum); for time-limited searches every clock-read index at which the limit expires is executed.",
+   text="Every search of every enumerated session runs in a build with overflow checks and debug assertions inside catch_unwind with a deterministic node budget: it must terminate, not panic and return a move that is legal by the reference rules. Sessions chain searches on one persistent state (non-initial states, generation counter wrap, hash sizes from the advertised minimum); for time-limited searches every clock-read index at which the limit expires is executed. The tactical roots include forced replies without any quiet move (the only legal move a losing or a winning capture, colour-mirrored twins).",
    design="5/C04"),
  "C05": dict(
    engine="tvc-sched",
@@ -65,7 +65,7 @@ CHECKS = {
    design="5/C14"),
  "C15": dict(
    technique="explicit-state exploration + exhaustive operation-sequence DFS with recomputation of phase counter and packed accumulator after every operation",
-   text="After every make, null move and take-back of every explored sequence, and in every state of the sweep (promotions, en passant, castling and F-HEAVY included), the carried phase counter and piece-square accumulator equal IncrementalEvalFields::init(&board) and separate 64-bit sums of the per-piece contributions (where they fit the packed halves); eval(game object) equals eval(position re-read from its FEN) at every node and after every take-back (path independence); F-ABSURD (20..56 queens or rooks of one colour) and a 300-ply scripted game.",
+   text="After every make, null move and take-back of every explored sequence, and in every state of the sweep (promotions, en passant, castling and F-HEAVY included), the carried phase counter and piece-square accumulator equal IncrementalEvalFields::init(&board) and separate 64-bit sums of the per-piece contributions (where they fit the packed halves); eval(game object) equals eval(position re-read from its FEN) at every node and after every take-back (path independence); F-ABSURD (20..56 queens or rooks of one colour), a 560-ply scripted game and one line nested 2600 (20000) operations deep that is taken back level by level (E2-DEEP-NEST).",
    design="5/C15"),
  "C16": dict(
    technique="explicit-state exploration over positions reached by moves (BFS) and enumerated families incl. material far outside normal play, each with its colour-mirrored twin; exhaustive lattice of (mg, eg, phase) triples; one list of 17 864 pawn constellations evaluated in two opposite orders on fresh threads (order independence)",
